@@ -524,7 +524,7 @@ func (r *run) checkRouting(m *Model) {
 				if ambiguous {
 					continue
 				}
-				r.viol(prop, "at-least-once", prop+"/missing-delivery"+willCause(m, p)+emptyTag(p)+emptyLevelTag(p, grantsBy[sk]), "%s holds a matching subscription for the whole time in which the broker accepted message %s (topic %q, QoS %d, %d bytes, window [%d,%d]) but never received it; subscriptions: %s", who, p.Key, p.Topic, p.QoS, len(p.Payload), p.Lo, p.Hi, fmtGrants(grantsBy[sk]))
+				r.viol(prop, "at-least-once", prop+"/missing-delivery"+willCause(m, p)+emptyTag(p)+r.oversizeTag(p)+emptyLevelTag(p, grantsBy[sk]), "%s holds a matching subscription for the whole time in which the broker accepted message %s (topic %q, QoS %d, %d bytes, window [%d,%d]) but never received it; subscriptions: %s", who, p.Key, p.Topic, p.QoS, len(p.Payload), p.Lo, p.Hi, fmtGrants(grantsBy[sk]))
 			}
 		}
 	}
@@ -595,6 +595,16 @@ func neverTag(p *Pub) string {
 func emptyTag(p *Pub) string {
 	if len(p.Payload) == 0 {
 		return "/empty-payload"
+	}
+	return ""
+}
+
+// oversizeTag marks a will that is larger than a connection's ring even
+// without a packet identifier: it can be accepted (CONNECT is not read through
+// the ring) but never be written to a subscriber (known finding).
+func (r *run) oversizeTag(p *Pub) string {
+	if p.Will && 1+3+2+len(p.Topic)+len(p.Payload) > r.sc.Knobs.BufSize+3 {
+		return "/will-larger-than-ring"
 	}
 	return ""
 }
@@ -1171,7 +1181,7 @@ func (r *run) checkReceiver(m *Model) {
 				// several connections of one client may carry the same will
 				// (byte-identical CONNECT): one copy per abnormal end
 				if len(pubs) > 1 && (len(copies) > may || len(copies) < must) {
-					r.viol("C09", "will-exactly-once-per-end", fmt.Sprintf("C09/will-count/got%d-want%d", len(copies), must), "%s received %d copies of will %s (topic %q) but %d connection(s) carrying it ended without DISCONNECT (possible: %d): %s", who, len(copies), key, topic, must, may, fmtPubs(pubs))
+					r.viol("C09", "will-exactly-once-per-end", fmt.Sprintf("C09/will-count/got%d-want%d", len(copies), must)+r.oversizeTag(pubs[0]), "%s received %d copies of will %s (topic %q) but %d connection(s) carrying it ended without DISCONNECT (possible: %d): %s", who, len(copies), key, topic, must, may, fmtPubs(pubs))
 				}
 				continue
 			}
